@@ -13,13 +13,12 @@ RULE = ('N in 1..3 (quick) / 1..4 (thorough) stages; echelon holding costs k/4, 
         'non-trivial = N >= 2, every S*_j strictly inside the grid and the S*_j not all equal; distinct = distinct (N, h, L, p, demand).')
 
 SIG_EVAL_ORDER = 'optimize_base_stock_levels|S-given|node-order-not-N..1'
-NORMCDF4 = None
 
 
 def _tails_default():
     from scipy import stats
     return dict(ltd_lower_tail_prob=1 - stats.norm.cdf(4), ltd_upper_tail_prob=1 - stats.norm.cdf(4),
-                sum_ltd_lower_tail_prob=1 - stats.norm.cdf(4), sum_ltd_upper_tail_prob=1 - stats.norm.cdf(8))
+                sum_ltd_lower_tail_prob=1 - stats.norm.cdf(4), sum_ltd_upper_tail_prob=1 - stats.norm.cdf(4))      # defaults of optimize_base_stock_levels
 
 
 # ------------------------------------------------------------------------------------------------ generator
@@ -214,16 +213,18 @@ def ltd_pmfs(c, as_float=False):
     return out
 
 
-def topdown(c, pm, S):
-    """exact expected cost of echelon base-stock levels S = {j: level}: IP_j = min(S_j, IL_{j+1}), IL_j = IP_j - D_j,
-    cost = sum_j h_j IL_j + (p + sum h) IL_1^- ; memoised on (stage, IP)."""
+def topdown(c, pm, S, memo=None):
+    """exact expected cost of echelon base-stock levels S = [S_1, ..., S_N]: IP_j = min(S_j, IL_{j+1}), IL_j = IP_j - D_j,
+    cost = sum_j h_j IL_j + (p + sum h) IL_1^- ; memoised on (stage, IP, levels of the stages below), the memo may be shared
+    between calls with the same c and pm."""
     N = c['N']; h = c['h']; H = sum(h); p = c['p']
     flt = isinstance(pm[1][0][1], float)
     if not flt:
         h = [Fraction(x) for x in h]; H = sum(h); p = Fraction(p)
-    memo = {}; S = [None] + list(S)
+    if memo is None: memo = {}
+    S = [None] + list(S)
     def go(j, ip):
-        key = (j, ip)
+        key = (j, ip, tuple(S[1:j]))
         if key in memo: return memo[key]
         tot = 0
         for d, f in pm[j]:
@@ -280,10 +281,13 @@ def oracle(chk, c, r, rng, budget=1.0):
     if not rel_close(tc, Cstar, tolc):
         bad.append(('optimize_base_stock_levels|reported-cost-not-cost-of-levels', 'C*=%r but the exact expected cost of S*=%r is %r' % (Cstar, lv, float(tc))))
     # (c2) cost reported for other level vectors (evaluation mode / expected_cost) = their exact expected cost
-    for k in range(2):
+    x_lo = tables(c)['x_lo']
+    for k in range(3):
         Sr = {j: max(1, lv[j] + rng.randint(-4, 4)) for j in lv}
+        if k == 2:      # very low levels: the cost then depends on the linear continuation below the grid
+            Sr = {j: x_lo + rng.randint(0, 6) for j in lv}
         tcr = topdown(c, pmf_, [Sr[j] for j in range(1, N + 1)])
-        if k == 0 or not (c['form'] == 'network' or c['default_order']):
+        if k != 1 or not (c['form'] == 'network' or c['default_order']):
             e = run_impl(c, S_by_stage=Sr); val = e[2] if e[0] == 'ok' else None; call = 'optimize_base_stock_levels(S=...)'
         else:
             from stockpyl.ssm_serial import expected_cost
@@ -302,8 +306,9 @@ def oracle(chk, c, r, rng, budget=1.0):
     cand = itertools.product(*[range(b - rad, b + rad + 1) for b in base])
     top = max(base) + 4; step = max(1, top // (6 if N <= 3 else 4))
     coarse = itertools.product(*[range(0, top + 1, step) for _ in range(N)])
+    shared = {}
     for vec in itertools.chain(cand, coarse):
-        v = topdown(c, pmf_, list(vec))
+        v = topdown(c, pmf_, list(vec), shared)
         if v < Cstar - tol_opt and (worst is None or v < worst[0]): worst = (v, vec)
     if worst:
         bad.append(('optimize_base_stock_levels|not-optimal', 'levels %r cost %r < reported optimum %r at S*=%r' % (list(worst[1]), worst[0], Cstar, base)))
@@ -408,7 +413,7 @@ def explore(chk, n, nmax, do_model=True, n_normal=0, n_malformed=0):
     cases = [gen_case(rng, nmax) for _ in range(n)] + [gen_case(rng, min(nmax, 3), kinds=('N',)) for _ in range(n_normal)] \
         + [gen_malformed(rng) for _ in range(n_malformed)]
     impl = [run_impl(c) for c in cases]
-    # model: optimisation run for every discrete case, plus an evaluation-mode run (levels perturbed) for every third
+    # model: optimisation run for every discrete case, plus an evaluation-mode run (levels perturbed, or very low) for every third
     exprs = []; slots = []
     if do_model:
         for i, (c, r) in enumerate(zip(cases, impl)):
@@ -417,6 +422,7 @@ def explore(chk, n, nmax, do_model=True, n_normal=0, n_malformed=0):
             exprs.append(model_expr(c, tb)); slots.append((i, 'opt', tb, None))
             if i % 3 == 0:
                 Sr = {j: max(0, r[1][j] + rng.randint(-3, 3)) for j in r[1]}
+                if i % 6 == 3: Sr = {j: tb['x_lo'] + rng.randint(0, 6) for j in r[1]}      # low levels: continuation below the grid matters
                 tb2 = tables(c, S_max=max(Sr.values()))
                 exprs.append(model_expr(c, tb2, S_by_stage=Sr)); slots.append((i, 'eval', tb2, Sr))
         vals = coq_eval_sharded('c07', 'Alg.SSM', '', exprs, shard=6, jobs=8)
@@ -493,7 +499,7 @@ def run(chk):
     if chk.tier == 'quick':
         explore(chk, 150, 3, n_normal=8, n_malformed=10)
     else:
-        explore(chk, 700, 4, n_normal=30, n_malformed=40)
+        explore(chk, 500, 4, n_normal=24, n_malformed=30)
     if (chk.broken or chk.mismatches) and not chk.fails:
         explore(chk, 300 if chk.tier == 'quick' else 1500, 3 if chk.tier == 'quick' else 4, do_model=False, n_normal=10)
 
